@@ -239,6 +239,8 @@ def parse_op(line):
         return (k, p.zmap())
     if k == "setmap":
         return (k, int(p.next()), p.zmap())
+    if k == "onupdate":
+        return (k, int(p.next()), int(p.next()), p.effs())
     if k in ("permapi", "permapiom"):
         return ("permapi", int(p.next()), p.next(), p.bindfn())
     if k in ("perfilter", "perfilterom"):
